@@ -107,6 +107,25 @@ NEEDS = {
     "C17-5": "plain output, >= 2 data files, a top-level key conflict between the parameters and one data file: that file is skipped with a warning, exit 0",
     "C18-5": "parse_boolean() on a boolean word in mixed capitalisation (tRuE, fAlSe): error instead of the documented case-insensitive conversion",
     "C19-5": "a resource type containing a character outside [A-Za-z0-9:_] (Custom::Log-Forwarder): the emitted rule selects the sanitised type name and SKIPs",
+    "C01-6": "prefix not on `empty` / `!empty` over a filter-terminated or bare-variable query that selects nothing: the flip is dropped",
+    "C02-6": "plain validate over several data files: a FAIL file followed by a file whose rules all SKIP resets the exit code to 0",
+    "C03-6": "negated `in` (prefix not or `not in`) with a query-valued right-hand side that has at least as many values as the left and does not contain it: FAIL instead of PASS",
+    "C04-6": "a filter on a map with >= 2 lines whose first line SKIPs for an entry another line accepts: the entry is rejected, so the order of filter lines decides",
+    "C05-6": "a key filter whose comparator is `in` (`keys in [..]`, `keys == %multi`) over >= 2 keys in a failing rule: results grouped through a HashMap, output order varies between runs",
+    "C06-6": "plain `test` with an unmet expectation while colouring is on (CLICOLOR_FORCE=1 / terminal): coloured map key, exit 0 instead of 7",
+    "C07-6": "`--structured -o json|yaml` for a data file on which every rule of every rules file is SKIP: file status PASS (fold starts from Status::default() = PASS)",
+    "C08-6": "`test -o json|yaml|junit` with an unparsable test file processed before a well-formed one for the same rules file: unreachable!() in the structured reporter",
+    "C09-6": "a failed binary clause whose right-hand side is a query with an unresolved entry: custom message and generated explanation swapped in the report",
+    "C10-6": "a JSON data file the YAML loader rejects (surrogate-pair escape, very long key) read through a position-less serde fallback: every reported position is L:0,C:0",
+    "C11-6": "a YAML mapping whose key is a short-form tagged string (`!Ref x: 1`) loaded by test / library: accepted as the plain string key",
+    "C12-6": "two data files with the same base name in different directories in one validate run: the second is dropped",
+    "C13-6": "a float negative zero (-0.0 in the data) compared with 0.0: ordered by total_cmp, so -0.0 < 0.0 and not equal",
+    "C14-6": "an explicit `this.` as first part of a clause inside a filter on a list or on a map reached through a key: resolved against the enclosing value",
+    "C15-6": "a type block containing a `let` bound to a resource-relative query or function call, >= 2 resources of that type with different values: the first resource's value is memoised",
+    "C16-6": "a JSON tests file with a surrogate-pair escape and `test -o json|yaml|junit`: the structured reporter lost its JSON fallback and reports an error",
+    "C17-6": "the same top-level key in two sources where both values are maps with disjoint inner keys: merged recursively instead of being refused",
+    "C18-6": "to_upper / to_lower on a string with cased non-ASCII letters (é, Ü): only ASCII letters change case",
+    "C19-6": "a negative non-integer property (Threshold: -1.5): the emitted literal parses but loses its sign",
 }
 
 
